@@ -77,6 +77,9 @@ pub struct GenCfg {
     pub dact_pct: u32,
     pub dact_panic: bool,
     pub dact_clone_own: bool,
+    /// weight of CloneOwnSlot when `dact_clone_own` (a destructor that keeps one of
+    /// its stored handles alive by cloning it out)
+    pub dact_clone_own_weight: u32,
     pub dact_ops: bool,
     pub cleanup: bool,
     /// probability (0..100) that a prefix edge is recorded (Full: always)
@@ -96,6 +99,7 @@ impl GenCfg {
             dact_pct: 0,
             dact_panic: false,
             dact_clone_own: false,
+            dact_clone_own_weight: 8,
             dact_ops: true,
             cleanup: true,
             adopt_pct: 94,
@@ -193,7 +197,7 @@ fn dact(g: &GenCfg) -> BoxedStrategy<DAct> {
         v.push((4, Just(DAct::Panic).boxed()));
     }
     if g.dact_clone_own {
-        v.push((8, s().prop_map(DAct::CloneOwnSlot).boxed()));
+        v.push((g.dact_clone_own_weight, s().prop_map(DAct::CloneOwnSlot).boxed()));
     }
     proptest::strategy::Union::new_weighted(v).boxed()
 }
